@@ -263,7 +263,13 @@ func getFile(fspec string) []byte {
 		return d
 	}
 	var d []byte
-	if strings.HasPrefix(fspec, "retab(") {
+	if strings.HasPrefix(fspec, "apple:") {
+		// the same file with the Apple sfnt version tag 'true' (read like TrueType; never written)
+		fontMu.Unlock()
+		base := getFile(fspec[6:])
+		fontMu.Lock()
+		d = append([]byte("true"), base[4:]...)
+	} else if strings.HasPrefix(fspec, "retab(") {
 		// retab(<opt>,<taghex>.<len>,...)<file spec>: the tables of that file written again through
 		// header.Write together with zero-filled tables of the given lengths (length 0: an empty
 		// table); option x drops GDEF/GSUB/GPOS so that DSIG or an unknown tag is laid out last
@@ -1112,6 +1118,7 @@ func countWrites(c *Ctx, group, out string) {
 func fileCases(c *Ctx, fspec string, data []byte) {
 	ents, _, hdrLen, lastEnd := layoutOf(data)
 	total := len(data)
+	c.Stat("file_scaler", string(hx(data[:4])))
 	c.Stat("file_bytes", bucket(total))
 	c.Stat("tables_per_file", bucket(len(ents)))
 	c.Stat("trailing_padding", fmt.Sprint(total-lastEnd))
@@ -1254,6 +1261,10 @@ func synthCases(c *Ctx, i int) {
 		}
 	}
 	sc := Pick(r, []uint32{header.ScalerTypeTrueType, header.ScalerTypeCFF, header.ScalerTypeApple})
+	if i < 3 {
+		sc = []uint32{header.ScalerTypeTrueType, header.ScalerTypeApple, header.ScalerTypeCFF}[i]
+	}
+	c.Stat("scaler", map[uint32]string{header.ScalerTypeTrueType: "0x00010000", header.ScalerTypeCFF: "OTTO", header.ScalerTypeApple: "true"}[sc])
 	keys := make([]string, 0, len(tabs))
 	for k := range tabs {
 		keys = append(keys, k)
@@ -1350,6 +1361,9 @@ func areaFaults(c *Ctx) {
 			for _, m := range []string{"x,44534947.0", "x,7a7a7a7a." + fmt.Sprint(Pick(r, []int{1, 2, 3, 5, 6, 7}))} {
 				fspec := "retab(" + m + ")" + base
 				fileCases(c, fspec, getFile(fspec))
+				// every scaler type header.Read supports: 0x00010000 above, OTTO in the CFF files, 'true' here
+				c.Stat("scaler", "true")
+				fileCases(c, "apple:"+fspec, getFile("apple:"+fspec))
 			}
 		},
 		func() {
@@ -1360,12 +1374,12 @@ func areaFaults(c *Ctx) {
 		},
 	)
 	if c.Tier == "thorough" {
-		raws := []string{"goregular", "gomono", "gosmallcaps"}
+		raws := []string{"raw:goregular", "raw:gomono", "apple:raw:gosmallcaps"}
 		for _, name := range raws {
 			name := name
 			jobs = append(jobs, func() {
 				c.Stat("outlines", "glyf")
-				fileCases(c, "raw:"+name, getFile("raw:"+name))
+				fileCases(c, name, getFile(name))
 			})
 		}
 		// a complete large font through the writers: sampled k for the sfnt level, every k for header.Write
